@@ -56,6 +56,14 @@ const PLACEMENTS = {
   ...Object.fromEntries([8, 63, 64, 65, 100].map(d => [`deep-block-${d}`, (R) => `let ${R} = 'U1';\nfunction f(act) {\n  const v = $.p(act, 1) + $.p(act, 2);\n  ${'{ '.repeat(d)}$.u('read', ${R});${' }'.repeat(d)}\n  return v;\n}`])),
   ...Object.fromEntries([8, 64, 70].map(d => [`deep-function-${d}`, (R) => `let ${R} = 'U1';\nfunction f(act) {\n  const v = $.p(act, 1) + $.p(act, 2);\n  ${'(() => { '.repeat(d)}$.u('read', ${R});${' })();'.repeat(d)}\n  return v;\n}`])),
   ...Object.fromEntries([64, 70].map(d => [`deep-block-writes-${d}`, (R) => `let ${R} = 'U1';\nconst rd = () => ${R};\nfunction f(act) {\n  const v = $.p(act, 1) + (${'{ '.repeat(0)}$.n(() => { ${'{ '.repeat(d)}${R} = 'U2';${' }'.repeat(d)} return 'w'; })()) + $.p(act, 2);\n  return v;\n}\nconst after = () => $.u('outer', rd());`])),
+  // the clashing block is followed, inside the same statement, by another instrumented block that is not
+  // reached through a statement node (a later method, a later callback argument, a finally block)
+  'clash-in-first-class-method': (R) => `class K {\n  m1(act) { let ${R} = 'U1'; const v = $.p(act, 1) + $.p(act, 2); $.u('read', ${R}); return v; }\n  m2(act) { return $.p(act, 3) + $.p(act, 4); }\n}\nconst f = (act) => new K().m1(act) + new K().m2(act);`,
+  'clash-in-first-object-method': (R) => `const o = {\n  m1(act) { let ${R} = 'U1'; const v = $.p(act, 1) + $.p(act, 2); $.u('read', ${R}); return v; },\n  get g() { return (act) => $.p(act, 3) + $.p(act, 4); },\n  m2(act) { return $.p(act, 5) + $.p(act, 6); }\n};\nconst f = (act) => o.m1(act) + o.m2(act) + o.g(act);`,
+  'clash-in-first-callback-argument': (R) => `function f(act) {\n  return $.n(function () { let ${R} = 'U1'; const v = $.p(act, 1) + $.p(act, 2); $.u('read', ${R}); return v; }, function () { return $.p(act, 3) + $.p(act, 4); })();\n}`,
+  'clash-in-try-then-finally': (R) => `function f(act) {\n  let r = '';\n  try { let ${R} = 'U1'; r = $.p(act, 1) + $.p(act, 2); $.u('read', ${R}); } catch (e) { r = $.p(act, 5) + $.p(act, 6); } finally { r = r + ($.p(act, 3) + $.p(act, 4)); }\n  return r;\n}`,
+  'toplevel-class-method-param': (R) => `class K {\n  m(act, ${R}) { const v = $.p(act, 1) + $.p(act, 2); $.u('args', arguments[1]); return v; }\n}\nconst f = (act) => new K().m(act, 'U1');`,
+  'template-with-literal-expression': (R) => `let ${R} = 'U1';\nfunction f(act) {\n  const v = $.p(act, 1) + $.p(act, 2);\n  $.u('tpl', \`\${1}\${${R}}\`);\n  return v;\n}`,
   'else-if-unbraced': (R) => `let ${R} = 'U1';\nfunction f(act) {\n  const v = $.p(act, 1) + $.p(act, 2);\n  if ($.u('c', 0)) { v.length; } else if ($.u('d', 1)) ${R} = 'U3';\n  const w = $.p(act, 3) + $.p(act, 4);\n  return v + w;\n}\nconst rd = () => ${R};\nconst after = () => $.u('outer', rd());`
 }
 
